@@ -24,7 +24,7 @@ meta = {
     "id": sid,
     "property": sid.split("-")[0],
     "base_commit": res["base_commit"],
-    "author": "independent sub-agent given only the property record and a scratch worktree (round 4: two different clauses, one in a secondary place or two cooperating sites)",
+    "author": os.environ.get("SEED_AUTHOR", "independent sub-agent given only the property record and a scratch worktree (round 5: needs something specific to manifest; two different clauses, one not in the most obvious function)"),
     "files_touched": res["files_touched"],
     "needs_to_manifest": "see notes.md (written by the author of the change)",
     "validated": {
